@@ -4,7 +4,7 @@
 From Coq Require Import NArith ZArith List Bool.
 Import ListNotations.
 Require Import UV.C07.Model UV.C07.Check UV.C07.Proofs UV.C07.Replay UV.C07.RecordReplay.
-Require UV.C07.RecordProof UV.C07.Range.
+Require UV.C07.RecordProof UV.C07.Range UV.C07.Multi.
 Local Open Scope Z_scope.
 
 (* get_task_ustack's look-ahead list (time filter -t / time=, caller filter -C, `trace`) hands the
@@ -84,6 +84,31 @@ Theorem C07_time_range_raw_dump : forall c rs,
   map ob_rt (run_raw c rs) = map Range.shown_rec (Range.window c rs).
 Proof. exact Range.range_raw. Qed.
 Print Assumptions C07_time_range_raw_dump.
+
+(* several tasks (threads / processes), merged by timestamp with the lowest task index first on ties, one
+   look-ahead list and one filter state per task, fstack_enabled shared: the merge keeps every task's own
+   order; without trace_on/trace_off every task shows in report/graph/dump exactly what it would show alone,
+   i.e. the documented selection of its own forest; script and replay --no-merge read the merged stream like
+   report/graph/dump do. *)
+Theorem C07_merge_keeps_task_order : forall fuel ss t, (total_len ss <= fuel)%nat ->
+  Multi.of_task t (merge fuel ss) = nth t ss [] /\ Forall (fun p => (fst p < length ss)%nat) (merge fuel ss).
+Proof. exact Multi.merge_task. Qed.
+Print Assumptions C07_merge_keeps_task_order.
+
+Theorem C07_tasks_independent : forall c ss t, no_switch_all c -> (t < length ss)%nat ->
+  Multi.of_task t (run_std_m c ss) = run_std c (nth t ss []).
+Proof. exact Multi.tasks_independent. Qed.
+Print Assumptions C07_tasks_independent.
+
+Theorem C07_matches_documented_tasks : forall c fs t, no_switch_all c -> no_range c = true -> (t < length fs)%nat ->
+  Multi.of_task t (run_std_m c (map (flats 0) fs)) = select c (nth t fs []).
+Proof. exact Multi.tasks_match_select. Qed.
+Print Assumptions C07_matches_documented_tasks.
+
+Theorem C07_commands_agree_nomerge_tasks : forall c ss, plt_free_all c -> no_merge c = true ->
+  run_rp_m c ss = run_std_m c ss.
+Proof. exact Multi.nomerge_multi. Qed.
+Print Assumptions C07_commands_agree_nomerge_tasks.
 
 (* --no-libcall breaks the agreement: replay tests the symbol type before fstack_entry *)
 Theorem C07_no_libcall_commands_agree_refuted :
